@@ -8,6 +8,7 @@ import ast
 import os
 
 from py2lean import Frag, Translator, Untranslatable, const_table, _src
+from py2heap import HFrag, HTranslator
 
 
 def _from_until(start_pred, stop_pred, inclusive=True):
@@ -233,6 +234,41 @@ FRAGS = [
 ]
 
 
+# ---------------------------------------------------------------------- object-level fragments (py2heap): statements that
+# read and write attributes of Structure objects, translated to functions on the object heap of ADModel/Cache.lean
+_ST, _DD = 'astrodendro/structure.py', 'astrodendro/dendrogram.py'
+_INLINE = {'_reset_cache': ('Structure._reset_cache', ['self'], _ST),
+           '_merge': ('Structure._merge', ['self', 'structure'], _ST),
+           '_merge_with_parent': ('_merge_with_parent', ['m', None], _DD)}
+
+HFRAGS = [
+    HFrag('h_reset_cache', _ST, 'Structure._reset_cache', [('self', 'Obj')], n_skipped=4, props=['C14', 'C02'],
+          doc='`Structure._reset_cache` on the link caches (`_level`, `_ancestor`, `_descendants`, `_newick`)'),
+    HFrag('h_level', _ST, 'Structure.level', [('self', 'Obj')], ret='OptNat', locals_={'obj': 'Obj', 'diff': 'Nat'},
+          props=['C02', 'C14'], doc='`Structure.level`: the cached walk towards a structure whose level is known'),
+    HFrag('h_ancestor', _ST, 'Structure.ancestor', [('self', 'Obj')], ret='OptObj', locals_={'a': 'Obj'},
+          props=['C02', 'C04', 'C14'], doc='`Structure.ancestor`: the path-compressing loop'),
+    HFrag('h_descendants', _ST, 'Structure.descendants', [('self', 'Obj')], ret='OptObjList',
+          locals_={'to_add': 'ObjList', 'children': 'ObjList'}, props=['C02', 'C14'],
+          doc='`Structure.descendants`: level by level'),
+    HFrag('h_prune_merge', _DD, 'Dendrogram.prune', [('m', 'Obj')], locals_={'parent': 'Obj'}, inline=_INLINE, skip=[r'^m\._fill_footprint\('], n_skipped=8,
+          cls_file=_ST, props=['C07', 'C14', 'C02'],
+          select=lambda stmts: [x for f_ in stmts if isinstance(f_, ast.For) and '_to_prune' in _src(f_.iter)
+                                for g_ in f_.body if isinstance(g_, ast.For) and _src(g_.target) == 'm' for x in g_.body],
+          doc='`prune`: what is done with each structure of the `merge` list: `_merge_with_parent` (with `Structure._merge` and '
+              '`_reset_cache` inlined; links view: the label map and the value summaries are outside it), then `del keep_structures[...]`'),
+    HFrag('h_prune_reset', _DD, 'Dendrogram.prune', [], inline=_INLINE, n_skipped=4, cls_file=_ST, props=['C14', 'C02', 'C07'],
+          atoms={'keep_structures.values()': ('h.alive', 'ObjList')},
+          select=lambda stmts: [f_ for f_ in stmts if isinstance(f_, ast.For) and _src(f_.iter) == 'keep_structures.values()'],
+          doc='`prune`: the caches of every surviving structure are reset (`keep_structures` = the alive objects)'),
+    HFrag('h_make_trunk', _DD, '_make_trunk', [], n_skipped=2, cls_file=_ST, props=['C14', 'C02', 'C07'],
+          atoms={'keep_structures.values()': ('h.alive', 'ObjList')}, alias_locals={'dendrogram.trunk': 'trunk'},
+          transparent=['_sorted_by_idx'], skip=[r'^leaves_in_trunk = ', r'^for leaf in leaves_in_trunk:'],
+          doc='`_make_trunk`: the parentless survivors get `_level = 0` (the order of the trunk list and the removal of failing '
+              'parentless leaves are outside the links view)'),
+]
+
+
 def _assign_value(name):
     def f(tree):
         for n in ast.walk(tree):
@@ -357,6 +393,12 @@ def generate(repo):
         except (Untranslatable, SyntaxError, OSError) as e:
             errors[fr.name] = '%s: %s' % (type(e).__name__, e)
             parts.append('-- fragment %s could not be translated: %s' % (fr.name, str(e).replace('\n', ' ')))
+    for hf in HFRAGS:
+        try:
+            parts.append(HTranslator(hf, tree_of).translate())
+        except (Untranslatable, SyntaxError, OSError) as e:
+            errors[hf.name] = '%s: %s' % (type(e).__name__, e)
+            parts.append('-- fragment %s could not be translated: %s' % (hf.name, str(e).replace('\n', ' ')))
     for name, rel, finder, kind, _props in CONSTS:
         try:
             parts.append(const_table(tree_of(rel), finder, name, kind))
